@@ -947,6 +947,77 @@ def min_text(tree, rng, need=0):
     return txt
 
 
+JINJA_KEYS_V = ["n1", "n2", "sector"]
+JINJA_KEYS_F = ["f1", "f2", "open_economy"]
+
+
+def jinja_exec(ctx: Ctx, case, history):
+    """one templated source through the real preparser with its own context; oracle = the single-call meaning of the template
+    (an undefined variable prints nothing, an undefined flag is false), whatever was rendered before in this process"""
+    pieces, cvars, cflags, use_none = case["pieces"], case["vars"], case["flags"], case["none"]
+    src, want = [], []
+    for p in pieces:
+        if p[0] == "T":
+            src.append(p[1]); want.append(p[1])
+        elif p[0] == "V":
+            src.append("{{ " + p[1] + " }}" if len(p[1]) % 2 else "{{" + p[1] + "}}")
+            if p[1] in cvars: want.append(str(cvars[p[1]]))
+        else:
+            _, f, neg, th, el = p
+            cond = ("not " if neg else "") + f
+            src.append("{% if " + cond + " %} " + " ".join(th) + (" {% else %} " + " ".join(el) if el else "") + " {% endif %}")
+            want += th if (bool(cflags.get(f, False)) != neg) else el
+    source = "\n".join(src) + "\n"
+    context = None if use_none else {**cvars, **cflags}
+    try:
+        out = _pp.from_string(source, context=context)[0].split()
+    except Exception as e:
+        out = ["err:", type(e).__name__]
+    ctx.evaluations += 1
+    if out != want:
+        ctx.fail("jinja-context-leaks-between-calls" if history else "jinja-rendering",
+                 {"stream": "jinja", "case": case, "history": history},
+                 f"preparsed text {' '.join(out)!r}, this call's own context gives {' '.join(want)!r}")
+    return " ".join(["ok"] + out)
+
+
+def jinja_line(case):
+    enc = []
+    for p in case["pieces"]:
+        if p[0] == "T": enc.append("T:" + p[1])
+        elif p[0] == "V": enc.append("V:" + p[1])
+        else: enc.append(f"I:{p[1]}:{1 if p[2] else 0}:{','.join(p[3])}:{','.join(p[4])}")
+    return ("jinja vars " + " ".join(f"{k}={v}" for k, v in sorted(case["vars"].items())) + " | flags "
+            + " ".join(f"{k}={'T' if v else 'F'}" for k, v in sorted(case["flags"].items())) + " | " + " ".join(enc))
+
+
+def run_jinja_stream(ctx: Ctx, n: int):
+    """consecutive `from_string` calls in one process with templated sources whose contexts define / omit the same keys"""
+    rng = ctx.rng.fork("jinja")
+    words = ["x1", "=", "a_b", "+", "y", ";", "k2"]
+    templates = []
+    for _ in range(6):
+        ps = []
+        for _ in range(rng.randint(2, 6)):
+            c = rng.weighted([("T", 3), ("V", 2), ("I", 2)])
+            if c == "T": ps.append(["T", rng.choice(words)])
+            elif c == "V": ps.append(["V", rng.choice(JINJA_KEYS_V)])
+            else:
+                ps.append(["I", rng.choice(JINJA_KEYS_F), rng.chance(0.3), [rng.choice(words) for _ in range(rng.randint(1, 2))],
+                           [rng.choice(words) for _ in range(rng.randint(0, 2))]])
+        templates.append(ps)
+    lines, impl, hist = [], [], []
+    for i in range(n):
+        cvars = {k: rng.choice(["alpha", "b2", 7, "zz"]) for k in JINJA_KEYS_V if rng.chance(0.4)}
+        cflags = {k: rng.chance(0.6) for k in JINJA_KEYS_F if rng.chance(0.4)}
+        use_none = (not cvars and not cflags) and rng.chance(0.5)
+        case = {"pieces": rng.choice(templates), "vars": cvars, "flags": cflags, "none": use_none}
+        impl.append(jinja_exec(ctx, case, hist[-40:]))
+        lines.append(jinja_line(case))
+        hist.append(case)
+    ctx.compare("jinja", lines, impl, ctx.model("C04", lines))
+
+
 def run_stringify_stream(ctx: Ctx, n: int):
     """`preparser._stringify` on ints, floats given by at most 15 significant decimal digits, and tuples/lists of them, vs the
     Lean `stringifyList` (text) -- and the oracle: the text re-read as a number is the value (no digit is dropped)"""
@@ -1072,6 +1143,12 @@ def subs_exec(ctx: Ctx, line: str, history):
 
 
 def replay_payload(ctx: Ctx, p, with_model=True):
+    if p.get("stream") == "jinja":
+        hist = list(p.get("history", []))
+        for i, c in enumerate(hist):
+            jinja_exec(ctx, c, hist[:i])
+        jinja_exec(ctx, p["case"], hist)
+        return
     if p.get("stream") == "stringify":
         run_stringify_stream(ctx, 400)
         return
@@ -1122,6 +1199,7 @@ def run(ctx: Ctx):
     run_parse_stream(ctx, ctx.n(150, 3000))
     run_parse_stream(ctx, ctx.n(250, 5000), prec=True)
     run_stringify_stream(ctx, ctx.n(400, 8000))
+    run_jinja_stream(ctx, ctx.n(300, 6000))
     run_functions_stream(ctx, ctx.n(8, 120))
     run_context_values_stream(ctx, ctx.n(150, 3000))
     run_prep_stream(ctx, ctx.n(2500, 60000))
